@@ -30,6 +30,18 @@ func vCompPrintable(n int) string {
 	return s
 }
 
+// vRelPathPrintable: as vRelPath over printable non-space components.
+func vRelPathPrintable(depth, n int) string {
+	p := vCompPrintable(n)
+	for d := 1; d < depth; d++ {
+		if !verifNondetBool() {
+			break
+		}
+		p = p + "/" + vCompPrintable(n)
+	}
+	return p
+}
+
 // vRelPath returns a normalized relative path of 1..depth symbolic components (never ".").
 func vRelPath(depth, n int) string {
 	p := vComp(n)
